@@ -417,7 +417,7 @@ func checkC01(c *Ctx) {
 		roots = append(roots, reg.Cmds[n])
 	}
 	// exported API of the root package is callable by the application while editing
-	for _, f := range p.RepoFuncs {
+	for _, f := range p.AllFuncs {
 		if f.Pkg != nil && f.Pkg.Pkg.Path() == modPath && f.Object() != nil && f.Object().Exported() {
 			roots = append(roots, f)
 		}
@@ -519,7 +519,7 @@ func checkC01(c *Ctx) {
 	if WE := p.Func("(*completion.group).wrapExcessAliases"); WE != nil {
 		bf := blockFacts(WE)
 		n := 0
-		eachInstr(WE, func(in ssa.Instruction) {
+		eachInstrRaw(WE, func(in ssa.Instruction) {
 			sl, ok := in.(*ssa.Slice)
 			if !ok || sl.Low == nil || sl.High != nil {
 				return
@@ -740,7 +740,7 @@ func includeDepthBounded(p *Prog) (bool, string) {
 	}
 	bf := blockFacts(DO)
 	var nested *ssa.Call
-	eachInstr(DO, func(in ssa.Instruction) {
+	eachInstrRaw(DO, func(in ssa.Instruction) {
 		if cl, ok := in.(*ssa.Call); ok && calleeName(cl) == "inputrc.Parse" {
 			nested = cl
 		}
@@ -763,7 +763,7 @@ func includeDepthBounded(p *Prog) (bool, string) {
 	}
 	// depth+1 reaches the nested parser
 	inc := false
-	eachInstr(DO, func(in ssa.Instruction) {
+	eachInstrRaw(DO, func(in ssa.Instruction) {
 		cl, ok := in.(*ssa.Call)
 		if !ok || !inRepo(staticCallee(cl)) || len(cl.Call.Args) != 1 {
 			return
@@ -773,7 +773,7 @@ func includeDepthBounded(p *Prog) (bool, string) {
 				// the option's closure must store into Parser.depth
 				callee := staticCallee(cl)
 				for _, an := range callee.AnonFuncs {
-					eachInstr(an, func(x ssa.Instruction) {
+					eachInstrRaw(an, func(x ssa.Instruction) {
 						if _, ok := isFieldStore(x, "inputrc.Parser", "depth"); ok {
 							inc = true
 						}
@@ -786,12 +786,12 @@ func includeDepthBounded(p *Prog) (bool, string) {
 		return false, "the nested parser does not receive depth+1"
 	}
 	// nothing else may write the depth (a reset in Parse would defeat the bound)
-	for _, f := range p.RepoFuncs {
+	for _, f := range p.AllFuncs {
 		if f.Parent() != nil && strings.HasPrefix(fnName(f), "inputrc.withDepth") {
 			continue
 		}
 		bad := ""
-		eachInstr(f, func(x ssa.Instruction) {
+		eachInstrRaw(f, func(x ssa.Instruction) {
 			if _, ok := isFieldStore(x, "inputrc.Parser", "depth"); ok {
 				bad = fnName(f)
 			}
@@ -813,7 +813,7 @@ func includeBudget(p *Prog) (bool, string) {
 		return false, "(*inputrc.Parser).do not found"
 	}
 	var nested *ssa.Call
-	eachInstr(DO, func(in ssa.Instruction) {
+	eachInstrRaw(DO, func(in ssa.Instruction) {
 		if cl, ok := in.(*ssa.Call); ok && calleeName(cl) == "inputrc.Parse" {
 			nested = cl
 		}
@@ -861,13 +861,13 @@ func includeBudget(p *Prog) (bool, string) {
 	}
 	// the nested parser shares the counter
 	shared := false
-	eachInstr(DO, func(in ssa.Instruction) {
+	eachInstrRaw(DO, func(in ssa.Instruction) {
 		cl, ok := in.(*ssa.Call)
 		if !ok || !inRepo(staticCallee(cl)) || len(cl.Call.Args) != 1 || !isFieldLoad(cl.Call.Args[0], "inputrc.Parser", "included") {
 			return
 		}
 		for _, an := range staticCallee(cl).AnonFuncs {
-			eachInstr(an, func(x ssa.Instruction) {
+			eachInstrRaw(an, func(x ssa.Instruction) {
 				if _, ok := isFieldStore(x, "inputrc.Parser", "included"); ok {
 					shared = true
 				}
@@ -880,10 +880,10 @@ func includeBudget(p *Prog) (bool, string) {
 	// only-writer clause: the pointer to the shared counter is stored by the option that
 	// hands it down and by the lazy allocation under `p.included == nil` in do — a store
 	// anywhere else (a reset in Parse) gives every included file a counter of its own
-	for _, f := range p.RepoFuncs {
+	for _, f := range p.AllFuncs {
 		var bad ssa.Instruction
 		var bf FactMap
-		eachInstr(f, func(in ssa.Instruction) {
+		eachInstrRaw(f, func(in ssa.Instruction) {
 			st, ok := isFieldStore(in, "inputrc.Parser", "included")
 			if !ok || bad != nil {
 				return
@@ -949,7 +949,7 @@ func includeLinear(p *Prog) (bool, string) {
 	isScan := func(in ssa.Instruction) bool { return isCallTo(in, "(*bufio.Scanner).Scan") }
 	var next *ssa.Call
 	tests := map[ssa.Value]bool{}
-	eachInstr(PARSE, func(in ssa.Instruction) {
+	eachInstrRaw(PARSE, func(in ssa.Instruction) {
 		switch x := in.(type) {
 		case *ssa.Call:
 			if calleeName(x) == "(*inputrc.Parser).next" {
@@ -1004,7 +1004,7 @@ func checkC01Panics(c *Ctx, fns []*ssa.Function) {
 	n := 0
 	for _, f := range fns {
 		k := 0
-		eachInstr(f, func(in ssa.Instruction) {
+		eachInstrRaw(f, func(in ssa.Instruction) {
 			if _, ok := in.(*ssa.Panic); ok {
 				// compiler-inserted panics have no position; explicit ones do
 				if !in.Pos().IsValid() {
@@ -1032,7 +1032,7 @@ func checkC01NilCalls(c *Ctx, fns []*ssa.Function) {
 	for _, f := range fns {
 		var bf FactMap
 		k := 0
-		eachInstr(f, func(in ssa.Instruction) {
+		eachInstrRaw(f, func(in ssa.Instruction) {
 			call, ok := in.(ssa.CallInstruction)
 			if !ok {
 				return
@@ -1102,7 +1102,7 @@ func checkC01NilCalls(c *Ctx, fns []*ssa.Function) {
 // mayReturnNilFunc: some return of f returns a nil func constant or an unguarded map lookup.
 func mayReturnNilFunc(f *ssa.Function) bool {
 	res := false
-	eachInstr(f, func(in ssa.Instruction) {
+	eachInstrRaw(f, func(in ssa.Instruction) {
 		if ret, ok := in.(*ssa.Return); ok && len(ret.Results) == 1 {
 			for _, v := range mayValues(ret.Results[0]) {
 				if isNilConst(v) {
@@ -1139,13 +1139,13 @@ func checkC01Input(c *Ctx) {
 	// read-guard: indexes into buffers coming from a terminal read / key channel need a length check
 	r.Rule("C01.read-guard", "K4", "a buffer obtained from a terminal read or a key channel is indexed only under a dominating length check", 1)
 	cp := p.Pkg("internal/core")
-	for _, f := range p.RepoFuncs {
+	for _, f := range p.AllFuncs {
 		if f.Package() == nil || cp == nil || f.Package().Pkg != cp.Types {
 			continue
 		}
 		var bf FactMap
 		k := 0
-		eachInstr(f, func(in ssa.Instruction) {
+		eachInstrRaw(f, func(in ssa.Instruction) {
 			ia, ok := in.(*ssa.IndexAddr)
 			if !ok {
 				return
@@ -1253,7 +1253,7 @@ func checkC01Input(c *Ctx) {
 		if errv != nil && W.Signature.Results().Len() > 0 {
 			bfW := blockFacts(W)
 			okErr := true
-			eachInstr(W, func(in ssa.Instruction) {
+			eachInstrRaw(W, func(in ssa.Instruction) {
 				ret, ok := in.(*ssa.Return)
 				if !ok || in.Block() == W.Recover {
 					return
@@ -1286,7 +1286,7 @@ func checkC01Input(c *Ctx) {
 				// a return reachable under fact result != nil / false before MatchLocal
 				var res ssa.Value = call
 				bf := blockFacts(RL)
-				eachInstr(RL, func(in ssa.Instruction) {
+				eachInstrRaw(RL, func(in ssa.Instruction) {
 					if !isReturn(in) {
 						return
 					}
@@ -1310,12 +1310,12 @@ func checkChanProtocol(c *Ctx, rule string) {
 	cp := p.Pkg("internal/core")
 	r.Rule(rule, "K6", "every channel send on the input path is on a buffered channel or inside a select with an alternative", 1)
 	nSend := 0
-	for _, f := range p.RepoFuncs {
+	for _, f := range p.AllFuncs {
 		if f.Package() == nil || cp == nil || f.Package().Pkg != cp.Types {
 			continue
 		}
 		k := 0
-		eachInstr(f, func(in ssa.Instruction) {
+		eachInstrRaw(f, func(in ssa.Instruction) {
 			sd, ok := in.(*ssa.Send)
 			if !ok {
 				return
@@ -1360,8 +1360,8 @@ func chanFieldBuffered(p *Prog, ch ssa.Value) bool {
 		return false
 	}
 	n, all := 0, true
-	for _, f := range p.RepoFuncs {
-		eachInstr(f, func(in ssa.Instruction) {
+	for _, f := range p.AllFuncs {
+		eachInstrRaw(f, func(in ssa.Instruction) {
 			if st, ok := isFieldStore(in, tn, fld); ok {
 				if mk, ok := st.Val.(*ssa.MakeChan); ok {
 					n++
@@ -1392,9 +1392,9 @@ func sendOnlyCrossGoroutine(p *Prog, f *ssa.Function, sd *ssa.Send) (bool, strin
 		}
 		setters := 0
 		good := true
-		for _, g := range p.RepoFuncs {
+		for _, g := range p.AllFuncs {
 			var sets []*ssa.Store
-			eachInstr(g, func(in ssa.Instruction) {
+			eachInstrRaw(g, func(in ssa.Instruction) {
 				if st, ok := isFieldStore(in, tn, fld); ok {
 					if b, ok := constBool(st.Val); ok && b {
 						sets = append(sets, st)
@@ -1407,13 +1407,13 @@ func sendOnlyCrossGoroutine(p *Prog, f *ssa.Function, sd *ssa.Send) (bool, strin
 			setters++
 			// (a) a deferred closure of g stores false, and the defer is in g's entry region (dominates every exit after the set)
 			cleared := false
-			eachInstr(g, func(in ssa.Instruction) {
+			eachInstrRaw(g, func(in ssa.Instruction) {
 				d, ok := in.(*ssa.Defer)
 				if !ok {
 					return
 				}
 				if mc, ok := d.Call.Value.(*ssa.MakeClosure); ok {
-					eachInstr(mc.Fn.(*ssa.Function), func(x ssa.Instruction) {
+					eachInstrRaw(mc.Fn.(*ssa.Function), func(x ssa.Instruction) {
 						if st, ok := isFieldStore(x, tn, fld); ok {
 							if b, ok := constBool(st.Val); ok && !b {
 								cleared = true
@@ -1445,7 +1445,7 @@ func checkC01Division(c *Ctx, fns []*ssa.Function) {
 	for _, f := range fns {
 		var bf FactMap
 		k := 0
-		eachInstr(f, func(in ssa.Instruction) {
+		eachInstrRaw(f, func(in ssa.Instruction) {
 			bo, ok := in.(*ssa.BinOp)
 			if !ok || (bo.Op != token.QUO && bo.Op != token.REM) {
 				return
@@ -1495,8 +1495,8 @@ func globalNonZeroConst(p *Prog, v ssa.Value) bool {
 		return false
 	}
 	n, good := 0, true
-	for _, f := range p.RepoFuncs {
-		eachInstr(f, func(in ssa.Instruction) {
+	for _, f := range p.AllFuncs {
+		eachInstrRaw(f, func(in ssa.Instruction) {
 			if st, ok := in.(*ssa.Store); ok && st.Addr == ssa.Value(g) {
 				n++
 				if k, ok := constInt(st.Val); !ok || k == 0 || f.Name() != "init" {
@@ -1518,8 +1518,8 @@ func globalNonZeroConst(p *Prog, v ssa.Value) bool {
 
 func referrersOfGlobal(p *Prog, g *ssa.Global) []ssa.Instruction {
 	var out []ssa.Instruction
-	for _, f := range p.RepoFuncs {
-		eachInstr(f, func(in ssa.Instruction) {
+	for _, f := range p.AllFuncs {
+		eachInstrRaw(f, func(in ssa.Instruction) {
 			for _, op := range in.Operands(nil) {
 				if op != nil && *op == ssa.Value(g) {
 					out = append(out, in)
@@ -1655,8 +1655,8 @@ func checkSelfDeadlock(c *Ctx, rule string) {
 	r.Rule(rule, "K8", "no function calls, while holding a mutex, a module function that (transitively) locks the same mutex", 1)
 	// which functions lock which mutex directly
 	locks := map[*ssa.Function]map[string]bool{}
-	for _, f := range p.RepoFuncs {
-		eachInstr(f, func(in ssa.Instruction) {
+	for _, f := range p.AllFuncs {
+		eachInstrRaw(f, func(in ssa.Instruction) {
 			if path, op, ok := lockOp(in); ok && (op == 'L' || op == 'R') {
 				if locks[f] == nil {
 					locks[f] = map[string]bool{}
@@ -1666,13 +1666,13 @@ func checkSelfDeadlock(c *Ctx, rule string) {
 		})
 	}
 	n := 0
-	for _, f := range p.RepoFuncs {
+	for _, f := range p.AllFuncs {
 		if locks[f] == nil {
 			continue
 		}
 		ls := locksets(f)
 		k := 0
-		eachInstr(f, func(in ssa.Instruction) {
+		eachInstrRaw(f, func(in ssa.Instruction) {
 			call, ok := in.(ssa.CallInstruction)
 			if !ok || len(ls[in]) == 0 {
 				return
